@@ -55,11 +55,20 @@ func Merge(d1, d2 *Dictionary) (*Dictionary, error) {
 		newDict.Vendors = make([]*Vendor, 0, len(d1.Vendors)+len(d2.Vendors))
 		newDict.Vendors = append(newDict.Vendors, d1.Vendors...)
 		for _, vendor := range d2.Vendors {
-			existingVendor := VendorByNumber(newDict.Vendors, vendor.Number)
-			if existingVendor != nil {
-				existingVendor.Attributes = append(existingVendor.Attributes, vendor.Attributes...)
-				existingVendor.Values = append(existingVendor.Values, vendor.Values...)
-			} else {
+			merged := false
+			for i, existingVendor := range newDict.Vendors {
+				if existingVendor.Number != vendor.Number {
+					continue
+				}
+				// combine into a copy: the inputs must not be modified
+				combined := *existingVendor
+				combined.Attributes = append(append([]*Attribute(nil), existingVendor.Attributes...), vendor.Attributes...)
+				combined.Values = append(append([]*Value(nil), existingVendor.Values...), vendor.Values...)
+				newDict.Vendors[i] = &combined
+				merged = true
+				break
+			}
+			if !merged {
 				newDict.Vendors = append(newDict.Vendors, vendor)
 			}
 		}
